@@ -4,6 +4,9 @@ import (
 	"encoding/json"
 	"fmt"
 	"math/rand/v2"
+	"os"
+	"os/exec"
+	"path/filepath"
 	"reflect"
 	"strings"
 	"sync"
@@ -230,6 +233,98 @@ func (camelFam) Exec(c core.CaseIn, rng *rand.Rand, emit func(cas, conc, obs any
 		}
 	}
 	return nil
+}
+
+// ExecAll: every case as Exec does it, and then - "pure functions of their input" - every input once more in a FRESH process
+// that meets the inputs in the opposite order: an answer that depends on what the process converted before (a memo keyed too
+// coarsely, a shared scratch buffer) differs between the two processes.
+func (f camelFam) ExecAll(cases []core.CaseIn, seed int64, emit func(c core.CaseIn, cas, conc, obs any)) error {
+	type rec struct {
+		c         core.CaseIn
+		cas, conc any
+		obs       camelObs
+	}
+	var recs []rec
+	for _, c := range cases {
+		rng := core.RNG(seed, uint64(c.ID)*2654435761+uint64(len(c.Src)))
+		if err := f.Exec(c, rng, func(cas, conc, obs any) { recs = append(recs, rec{c, cas, conc, obs.(camelObs)}) }); err != nil {
+			return err
+		}
+	}
+	inputs := make([][]int, len(recs))
+	for i, r := range recs {
+		inputs[i] = r.conc.(map[string]any)["input"].([]int)
+	}
+	dir, err := core.ScratchDir("camel-")
+	if err != nil {
+		return err
+	}
+	defer os.RemoveAll(dir)
+	in, out := filepath.Join(dir, "in.json"), filepath.Join(dir, "out.json")
+	b, _ := json.Marshal(inputs)
+	if err := os.WriteFile(in, b, 0o644); err != nil {
+		return err
+	}
+	cmd := exec.Command(gvhSelf(), "child", "camel-conv", in, out)
+	if msg, err := cmd.CombinedOutput(); err != nil {
+		return fmt.Errorf("camel-conv child: %v: %s", err, msg)
+	}
+	data, err := os.ReadFile(out)
+	if err != nil {
+		return err
+	}
+	var other [][][]int // per input: the six answers, or an empty list if a converter panicked there
+	if err := json.Unmarshal(data, &other); err != nil {
+		return err
+	}
+	if len(other) != len(recs) {
+		return fmt.Errorf("camel-conv child answered %d of %d inputs", len(other), len(recs))
+	}
+	for i := range recs {
+		o := &recs[i].obs
+		if !o.ConvPanicked && len(o.ConvOut) == 6 && len(other[i]) == 6 && !reflect.DeepEqual(o.ConvOut, other[i]) {
+			o.ConvAgain = false
+			o.ConvSite = "another process, other call order"
+		}
+		if !o.ConvPanicked && len(o.ConvOut) == 6 && len(other[i]) == 0 {
+			o.ConvPanicked = true
+			o.ConvSite = "another process, other call order"
+		}
+		emit(recs[i].c, recs[i].cas, recs[i].conc, *o)
+	}
+	return nil
+}
+
+func init() {
+	core.Children["camel-conv"] = func(args []string) error {
+		if len(args) != 2 {
+			return fmt.Errorf("camel-conv <in> <out>")
+		}
+		data, err := os.ReadFile(args[0])
+		if err != nil {
+			return err
+		}
+		var inputs [][]int
+		if err := json.Unmarshal(data, &inputs); err != nil {
+			return err
+		}
+		res := make([][][]int, len(inputs))
+		for i := len(inputs) - 1; i >= 0; i-- {
+			s := core.FromBytes(inputs[i])
+			outs := [][]int{}
+			p := core.Try(func() {
+				for _, cv := range camelConvs {
+					outs = append(outs, core.Bytes(cv(s)))
+				}
+			})
+			if p.Panicked {
+				outs = [][]int{}
+			}
+			res[i] = outs
+		}
+		b, _ := json.Marshal(res)
+		return os.WriteFile(args[1], b, 0o644)
+	}
 }
 
 func (camelFam) Rand(n int, rng *rand.Rand, emit func(cas any)) error {
